@@ -6,7 +6,8 @@ S=$1; TIER=${2:-quick}
 D=/verif/seeded/$S
 PID=$(python3 -c "import json;print(json.load(open('$D/meta.json'))['property'])")
 /verif/tools/alt_setup.sh >/dev/null || { echo "alt setup failed"; exit 2; }
-cd /tmp/alt/repo && git apply $D/patch.diff || { echo "$S: patch does not apply"; exit 3; }
+P=$D/patch.diff; [ -f $D/patch_rebased.diff ] && P=$D/patch_rebased.diff
+cd /tmp/alt/repo && git apply $P || { echo "$S: patch does not apply"; exit 3; }
 cd /verif && VERIF_ALT=/tmp/alt ./check $PID $TIER > /tmp/alt/seedrun_$S.txt 2>&1; RC=$?
 git -C /tmp/alt/repo checkout -q -- .
 if [ $RC -eq 1 ]; then echo "$S: DETECTED by ./check $PID $TIER"; elif [ $RC -eq 0 ]; then echo "$S: MISSED by ./check $PID $TIER"; else echo "$S: TOOL-ERROR rc=$RC"; tail -5 /tmp/alt/seedrun_$S.txt; fi
